@@ -62,8 +62,11 @@ def run(cmd, cwd=None, env=None, timeout=None, stdout=None, check=True, input=No
     e = dict(os.environ)
     if env:
         e.update(env)
+    t0 = time.time()
     p = subprocess.run(cmd, cwd=cwd, env=e, timeout=timeout, stdout=stdout or subprocess.PIPE,
                        stderr=subprocess.STDOUT, text=True, input=input)
+    if time.time() - t0 > 5:
+        log("%.0fs: %s" % (time.time() - t0, " ".join(cmd)[:160]))
     if check and p.returncode != 0:
         raise Undecided("command failed (%d): %s\n%s" % (p.returncode, " ".join(cmd), (p.stdout or "")[-4000:]))
     return p
@@ -149,6 +152,8 @@ def tlc(ctx, name, module, cfgfile, workers="auto", timeout=600, simulate=None, 
             subprocess.run(["pkill", "-f", os.path.join(d, "meta")])
             rc = -9
     out = open(outp, errors="replace").read()
+    if time.time() - t > 5:
+        log("%.0fs: tlc %s %s" % (time.time() - t, module, name))
     res = dict(rc=rc, out=out, outfile=outp, dir=d, wall=time.time() - t, generated=0, distinct=0, depth=0,
                invariant=None, timeout=(rc == -9), name=name)
     ms = _re_states.findall(out)
